@@ -104,6 +104,9 @@ pub fn run(ctx: &mut Ctx) {
                 if !mac {
                     let mut b = CoseSign1Builder::new().protected(h.header.clone()).unprotected(uh.clone());
                     if let Some(p) = &attached { b = b.payload(p.clone()); }
+                    // every third builder already carries a signature (a template copied from an earlier object): the one
+                    // supplied to finalize is the one that counts
+                    if ctx.evaluations % 3 == 0 { b = b.signature(vec![0x5a; 64]); ctx.count("prepare:builder-carries-a-signature"); }
                     match PreparedCoseSign1::new(b, detached.as_deref(), aad.as_deref(), tagged) {
                         Ok(p) => {
                             let t = p.signature_payload().to_vec();
@@ -120,6 +123,7 @@ pub fn run(ctx: &mut Ctx) {
                 } else {
                     let mut b = CoseMac0Builder::new().protected(h.header.clone()).unprotected(uh.clone());
                     if let Some(p) = &attached { b = b.payload(p.clone()); }
+                    if ctx.evaluations % 3 == 0 { b = b.tag(vec![0x5a; 32]); ctx.count("prepare:builder-carries-a-tag"); }
                     match PreparedCoseMac0::new(b, detached.as_deref(), aad.as_deref(), tagged) {
                         Ok(p) => {
                             let t = p.signature_payload().to_vec();
@@ -137,7 +141,7 @@ pub fn run(ctx: &mut Ctx) {
                 }
                 let unsigned = enc_cose(tag, &h.bytes, &unprot, &attached, &[]);
                 ctx.case("prepare", desc.clone(), prep_obs,
-                    Some(("c17.prepare", vec![Value::Bool(mac), bytes(&unsigned), opt(&detached), opt(&aad), bytes(&sig)])), None, true);
+                    Some(("c17.prepare", vec![Value::Bool(mac), bytes(&unsigned), opt(&detached), opt(&aad), bytes(&sig)])), Some(("c17.spec_finalized", vec![bytes(&sig)])), true);
                 if let Some(t) = &tbs {
                     let pl = attached.clone().or(detached.clone()).unwrap();
                     ctx.case("tbs_rfc", desc.clone(), bytes(t), None,
@@ -183,6 +187,17 @@ pub fn run(ctx: &mut Ctx) {
                                           else { let s: Signature = key.sign(&t); s.to_vec() };
                         variants.push(("protected-foreign-encoding", enc_cose(tag, &f, &unprot, &attached, &sf), detached.clone(), aad.clone(), false));
                         variants.push(("protected-foreign-encoding-signed-over-canonical", enc_cose(tag, &f, &unprot, &attached, &sig), detached.clone(), aad.clone(), false));
+                    }
+                }
+                // HMAC 256/64 (alg 4): a correct 8-byte truncated tag over the MAC_structure that names alg 4 is still another
+                // algorithm than the verifier's; and truncated tags under the right algorithm are not the tag
+                if mac && h.name == "hmac256" {
+                    let pl = attached.clone().or(detached.clone()).unwrap_or_default();
+                    for (f, keep) in [(vec![0xa1u8, 0x01, 0x04], 8usize), (vec![0xa1, 0x01, 0x04], 32), (vec![0xa1, 0x01, 0x05], 8), (vec![0xa1, 0x01, 0x05], 16), (vec![0xa1, 0x01, 0x06], 32), (vec![0xa1, 0x01, 0x07], 32)] {
+                        let t = to_bytes(&Value::Array(vec![text("MAC0"), bytes(&f), bytes(&aad.clone().unwrap_or_default()), bytes(&pl)]));
+                        let mut m = Hmac::<Sha256>::new_from_slice(&hkey).unwrap(); m.update(&t);
+                        let full = m.finalize().into_bytes().to_vec();
+                        variants.push(("other-hmac-algorithm-or-truncated-tag", enc_cose(tag, &f, &unprot, &attached, &full[..keep]), detached.clone(), aad.clone(), false));
                     }
                 }
                 for (vname, enc, det, ad, otherkey) in variants {
